@@ -306,3 +306,19 @@ pub fn all_edits(s: &Spec, include_sms_name: bool) -> Vec<Edit> {
   }
   go(s, 0, include_sms_name)
 }
+
+/// Pick one edit: first the kind (uniformly over the kinds available for this
+/// tree, so rare ingredients are exercised as often as common ones), then the
+/// instance.
+pub fn pick_edit(mut edits: Vec<Edit>, sel: u16) -> Option<Edit> {
+  if edits.is_empty() {
+    return None;
+  }
+  let mut kinds: Vec<&'static str> = edits.iter().map(|e| e.kind).collect();
+  kinds.sort_unstable();
+  kinds.dedup();
+  let kind = kinds[((sel >> 8) as usize * kinds.len()) >> 8];
+  let idxs: Vec<usize> = (0..edits.len()).filter(|&i| edits[i].kind == kind).collect();
+  let i = idxs[((sel & 0xff) as usize * idxs.len()) >> 8];
+  Some(edits.swap_remove(i))
+}
